@@ -51,6 +51,9 @@ type c16File struct {
 	Name string `json:"name"` // slash path below tree/
 	Role string `json:"role"` // site nosite model | unparseable rewrite-error unparseable-result unreadable
 	Src  string `json:"src"`
+	// LinkOf: the file is a hard link of this other file of the tree (same
+	// bytes); both names are Go files of the run.
+	LinkOf string `json:"link_of,omitempty"`
 }
 
 type c16Patch struct {
@@ -78,6 +81,8 @@ type c16Case struct {
 	Only      *c16Fault      `json:"only,omitempty"`       // mode faults: evaluate just this fault (replays)
 	Flags     []string       `json:"flags,omitempty"`      // flags of the run (e.g. --skip-import-processing)
 	Signal    *c16SignalSpec `json:"signal,omitempty"`     // mode signal
+	// ListNoLF: the -P list does not end in a line feed.
+	ListNoLF bool `json:"list_no_lf,omitempty"`
 }
 
 type c16Finding struct {
@@ -405,7 +410,25 @@ func (d *c16Dir) restore() error {
 	if err := os.MkdirAll(d.tree, 0o755); err != nil {
 		return err
 	}
-	return run.WriteTree(d.tree, d.files)
+	if err := run.WriteTree(d.tree, d.files); err != nil {
+		return err
+	}
+	for _, f := range d.cs.Files {
+		if f.LinkOf == "" {
+			continue
+		}
+		if _, ok := d.files[f.Name]; !ok {
+			continue
+		}
+		if _, ok := d.files[f.LinkOf]; !ok {
+			continue
+		}
+		_ = os.Remove(c16Abs(d, f.Name))
+		if err := os.Link(c16Abs(d, f.LinkOf), c16Abs(d, f.Name)); err != nil {
+			return err
+		}
+	}
+	return nil
 }
 
 // readTree returns the bytes of every regular file below the tree and the
@@ -496,6 +519,8 @@ func c16Setup(cs *c16Case, withBad bool) (*c16Dir, error) {
 			text := list.String()
 			i := strings.IndexByte(text, '\n') + 1
 			err = os.WriteFile(filepath.Join(pp, "list.txt"), []byte(text[:i]+strings.Repeat("x", 70000)+"\n"+text[i:]), 0o644)
+		case cs.ListNoLF:
+			err = os.WriteFile(filepath.Join(pp, "list.txt"), []byte(strings.TrimSuffix(list.String(), "\n")), 0o644)
 		default:
 			err = os.WriteFile(filepath.Join(pp, "list.txt"), []byte(list.String()), 0o644)
 		}
@@ -1125,6 +1150,30 @@ func c16EvalKinds(cs *c16Case, sink c16SinkFn) (status string) {
 	if base.TimedOut || base.Crashed() || base.Exit != 0 || len(base.Stderr) != 0 || len(odd) > 0 || len(P) != len(goodOrig) {
 		return "unjudged:fault-free-run-fails"
 	}
+	// The fault-free run said, with exit status 0, that every file was
+	// patched or needed nothing. The library, which knows nothing of how
+	// files and patches are found, says what "patched" is.
+	if len(cs.Flags) == 0 {
+		var joined []string
+		for _, p := range cs.Patches {
+			joined = append(joined, p.Text)
+		}
+		for _, f := range cs.Files {
+			if !c16GoodRole(f.Role) {
+				continue
+			}
+			ra := run.API("all.patch", []byte(strings.Join(joined, "\n")), f.Name, []byte(f.Src))
+			if ra.OK() && string(ra.Out) != P[f.Name] {
+				what := "is not what the library makes of it"
+				if P[f.Name] == f.Src {
+					what = "was left as it was although the patches apply to it"
+				}
+				sink(c16RunInfo{Hash: evid.Hash(c16CaseHash(cs), "reference"), Classes: []string{"finding-in-fault-free-run"}}, []c16Finding{{Sig: "exit-0-with-unprocessed-file:fault-free-run",
+					Msg: fmt.Sprintf("a run without any fault exits 0 with nothing on stderr, yet %s %s (hard link of %q, -P list without final line feed: %v)\nwritten:\n%s\nlibrary:\n%s", f.Name, what, f.LinkOf, cs.ListNoLF, trunc(P[f.Name], 600), trunc(string(ra.Out), 600))}})
+				return "judged"
+			}
+		}
+	}
 
 	d, err := c16Setup(cs, true)
 	if err != nil {
@@ -1627,6 +1676,24 @@ func c16GenKinds(rt *rapid.T) *c16Case {
 		} else {
 			cs.Files = append(cs.Files, c16KindFile(rt, i, name, roles[i]))
 		}
+	}
+	// two names of one file (hard link), both Go files of the run
+	if rapid.IntRange(0, 4).Draw(rt, "hardLink") == 0 {
+		first := -1
+		for i := range cs.Files {
+			if cs.Files[i].Role != "site" {
+				continue
+			}
+			if first < 0 {
+				first = i
+				continue
+			}
+			cs.Files[i].Src, cs.Files[i].LinkOf = cs.Files[first].Src, cs.Files[first].Name
+			break
+		}
+	}
+	if cs.Via == "P" {
+		cs.ListNoLF = rapid.IntRange(0, 3).Draw(rt, "listNoFinalLF") == 0
 	}
 	cs.Args = c16DrawArgs(rt, names)
 	switch class {
